@@ -42,11 +42,18 @@ func c05Grid(l *Line, xs []F64, pdf, cdf func(float64) float64, scale float64) {
 		// quadrature needs the nodes prev + t to be resolved to ~1e-10 of the scale
 		wellCond := math.Max(math.Abs(prev), math.Abs(x))*math.Ldexp(1, -52) < 1e-10*scale
 		if !math.IsNaN(prev) && !math.IsInf(prev, 0) && !math.IsNaN(x) && !math.IsInf(x, 0) && x > prev && wellCond {
-			if v, ok := ghQuadSplit(pdf, prev, x, nil, scale/4, 600); ok {
-				gl = v
-			}
+			catch(func() {
+				if v, ok := ghQuadSplit(pdf, prev, x, nil, scale/4, 600); ok {
+					gl = v
+				}
+			})
 		}
-		l.F(x).F(pdf(x)).F(cdf(x)).F(gl)
+		// a panic of the implementation is an observation (never a legal value: +Inf), not a
+		// failure of the harness
+		pv, cv := math.Inf(1), math.Inf(1)
+		catch(func() { pv = pdf(x) })
+		catch(func() { cv = cdf(x) })
+		l.F(x).F(pv).F(cv).F(gl)
 		if !math.IsNaN(x) {
 			prev = x
 		}
@@ -78,8 +85,14 @@ func c05Run(raw []byte) (*Line, error) {
 			l.I(len(c.Xs))
 			for _, pf := range c.Xs {
 				p := float64(pf)
-				x := n.InvCDF(p)
-				l.F(p).F(x).F(n.CDF(x)).F(n.PDF(x))
+				x, cx, px := math.Inf(1), math.Inf(1), math.Inf(1)
+				if pan, _ := catch(func() { x = n.InvCDF(p) }); !pan {
+					catch(func() { cx = n.CDF(x) })
+					catch(func() { px = n.PDF(x) })
+				} else if p == 1 {
+					x = math.Inf(-1) // +Inf is the legal answer at p = 1: mark the panic with the illegal one
+				}
+				l.F(p).F(x).F(cx).F(px)
 			}
 		case 3:
 			if c.N < 0 || c.N > 10000 {
@@ -141,7 +154,11 @@ func c05Run(raw []byte) (*Line, error) {
 		default:
 			return nil, fmt.Errorf("bad fn")
 		}
-		pairs := monoScan(f, lo, hi, c.N, 1, 4)
+		var pairs []scanPair
+		if pan, _ := catch(func() { pairs = monoScan(f, lo, hi, c.N, 1, 4) }); pan {
+			// a panic inside the scan is reported as a non-finite value at the left end
+			pairs = []scanPair{{lo, hi, math.Inf(1), math.Inf(1)}}
+		}
 		l.I(c.Fn).F(p1).F(p2).F(lo).F(hi).I(c.N).I(len(pairs))
 		for _, p := range pairs {
 			l.F(p.Lo).F(p.Hi).F(p.FLo).F(p.FHi)
@@ -278,6 +295,32 @@ func c05Gen(tier string, rng *rand.Rand, emit func(interface{})) {
 	for _, ms := range [][2]float64{{1e6, 1e-6}, {-1e6, 1e6}, {0, 1e-6}, {0, 1e6}, {1e6, 1e6}, {-1e6, 1e-6}} {
 		emit(c05Case{Op: 1, Mu: F64(ms[0]), Sigma: F64(ms[1]), Xs: c05NormalGrid(rng, ms[0], ms[1], true)})
 		emit(c05Case{Op: 2, Mu: F64(ms[0]), Sigma: F64(ms[1]), Xs: c05Probabilities(rng)})
+	}
+	// dense probability sweep for InvCDF of the standard normal: every 1/4096, both tails log-spaced at
+	// 8 (thorough 64) per decade down to 1e-300 and up to 1 - 1e-16
+	{
+		per := 8.0
+		if thorough {
+			per = 64
+		}
+		var ps []float64
+		for k := 1; k < 4096; k++ {
+			ps = append(ps, float64(k)/4096)
+		}
+		for j := 1.0; j <= 300*per; j++ {
+			p := math.Pow(10, -j/per)
+			ps = append(ps, p)
+			if p > 1e-16 {
+				ps = append(ps, 1-p)
+			}
+		}
+		var in []float64
+		for _, p := range ps {
+			if p > 0 && p < 1 {
+				in = append(in, p)
+			}
+		}
+		emit(c05Case{Op: 2, Mu: 0, Sigma: 1, Xs: c05Sorted(in)})
 	}
 	for it := 0; it < 60*mul; it++ {
 		mu, sigma := c05MuSigma(rng, it%3)
